@@ -27,6 +27,7 @@ func arn(r string) string { return "arn:aws:kms:" + r + ":key" }
 // world is the fake cloud: one KMS per region, blobs are region-bound.
 type world struct {
 	failGen, failEnc, failDec map[string]bool
+	shortKey                  bool              // GenerateDataKey hands back a key of the wrong size (the AEAD step fails)
 	wrongDec                  map[string]bool   // the region answers Decrypt with a data key that is not the one it wrapped
 	blobs                     map[string][]byte // blob id -> plaintext copy
 	blobRegion                map[string]string
@@ -69,7 +70,11 @@ func (w *world) generate(region string) ([]byte, []byte, error) {
 	if w.failGen[region] {
 		return nil, nil, errors.New("kms unavailable")
 	}
-	pt := make([]byte, 32)
+	n := 32
+	if w.shortKey {
+		n = 31 // a data key the AEAD rejects: wrapping fails after the plaintext exists
+	}
+	pt := make([]byte, n)
 	rand.Read(pt)
 	blob := w.wrap(region, pt)
 	w.handedOut = append(w.handedOut, pt)
@@ -240,7 +245,19 @@ func WrapUnwrap() {
 	wrapper, _ := build(wv, w, n, preferred)
 	key := vx.Bytes("systemkey", 32)
 	keep := append([]byte(nil), key...)
+	if vx.Param("shortkey") == 1 && n == 1 {
+		w.shortKey = vx.Bool("gen_returns_short_key")
+	}
 	env, err := wrapper.EncryptKey(context.Background(), key)
+	if w.shortKey {
+		// the failure happens after the data key plaintext exists: an error, and nothing left behind
+		vx.Assert("C17.wrap_with_unusable_data_key_is_an_error", err != nil || w.failGen[regions[0]])
+		for _, b := range w.handedOut {
+			vx.Assert("C17.data_key_plaintext_wiped_after_failed_wrap", vx.AllZero(b))
+		}
+		vx.Reach("C17.short_key")
+		vx.Stop()
+	}
 	anyGen := false
 	for _, r := range regions[:n] {
 		if !w.failGen[r] {
@@ -289,7 +306,15 @@ func WrapUnwrap() {
 	// unwrap, possibly with the other plugin, under its own failures
 	w.log = nil
 	w.handedOut = nil
-	unwrapper, _ := build(uv, w, n, preferred)
+	// the unwrapping side is another process (a freshly built plugin) or - same plugin version - the very instance
+	// that wrapped: a plugin object serves many calls, an earlier call must not change how later ones behave
+	var unwrapper ae.KeyManagementService
+	if wv == uv && vx.Choice("same_instance", 2) == 1 {
+		unwrapper = wrapper
+		vx.Tag("unwrap_by", "same-instance")
+	} else {
+		unwrapper, _ = build(uv, w, n, preferred)
+	}
 	out, err := unwrapper.DecryptKey(context.Background(), env)
 	canUnwrap := false
 	for _, r := range regions[:n] {
